@@ -17,12 +17,14 @@ from ..runner import Skip
 RULE = ("cases i=0..N-1 from rng(seed, 1, 0, i): 8 edge kinds (odometry r2/r3/se2/se3, landmark se2->r2, se3->r3, r2->r2, r3->r3) "
         "round-robin; operands from hostile classes (translations 1e-3..1e4/1e6, angles at +-pi / shifted by 2*pi*k / huge, "
         "quaternions w<0, w=0, 180deg, identity, near-identity; offsets with rotation); every 10th case is an in-situ optimizer run "
-        "whose calc_jacobians calls are observed through a wrapper. distinct = fingerprint of rounded operands; non-trivial = "
+        "whose calc_jacobians calls are observed through a wrapper; every 10th case is an operand history (estimate / vertex pose / offset replaced or modified in place "
+        "between calls on one live edge). distinct = fingerprint of rounded operands; non-trivial = "
         "some operand has a non-identity rotation and a non-zero translation (R^n edges: non-zero translation).")
 PLAN = {
     "quick": {"cases": 6000, "soft_s": 60, "min_nontrivial": 500,
               "require": ["eval:jac-vs-AD", "eval:jac-vs-FD-of-real-error", "kind:odo-se3", "kind:lm-se3-r3", "kind:lm-se2-r2", "insitu_calls_observed",
-                          "class:q:wneg", "class:q:wzero", "class:a:nearpi_in", "class:offset_rotated"]},
+                          "class:q:wneg", "class:q:wzero", "class:a:nearpi_in", "class:offset_rotated", "history:estimate:replace", "history:estimate:in-place", "history:vertex0:in-place",
+                          "history:offset:replace"]},
     "thorough": {"cases": 240000, "soft_s": 1100, "min_nontrivial": 20000,
                  "require": ["eval:jac-vs-AD", "eval:jac-vs-FD-of-real-error", "kind:odo-se3", "kind:lm-se3-r3", "kind:lm-se2-r2", "insitu_calls_observed",
                              "class:q:wneg", "class:q:wzero", "class:a:nearpi_in", "class:offset_rotated"]},
@@ -134,8 +136,60 @@ def insitu_case(ctx, i, rng):
         ctx.nontrivial(gen.fingerprint(spec))
 
 
+def mutate_operand(rng, e, maxexp=3.0):
+    """One step of an operand history on a live edge: replace or modify in place the estimate / a vertex pose / the offset."""
+    targets = ["estimate", "vertex0", "vertex1"] + (["offset"] if getattr(e, "offset", None) is not None else [])
+    tgt = str(rng.choice(targets))
+    how = str(rng.choice(["replace", "in-place"]))
+    obj = e.estimate if tgt == "estimate" else e.offset if tgt == "offset" else e.vertices[int(tgt[-1])].pose
+    k = M.kind(obj)
+    new, _ = gen.pose(rng, k, maxexp)
+    new = M.fl(M.mkpose(k, new))
+    if how == "replace":
+        val = M.mkpose(k, new) if k != "se2" else M.raw_se2(new)
+        if tgt == "estimate":
+            e.estimate = val
+        elif tgt == "offset":
+            e.offset = val
+        else:
+            e.vertices[int(tgt[-1])].pose = val
+    else:
+        obj[:] = new
+    return "%s:%s" % (tgt, how)
+
+
+def history_case(ctx, i, rng):
+    """The Jacobians must follow the current operands after any sequence of replacements / in-place modifications
+    (a result memoised on part of the operands goes stale here)."""
+    typ, k = EDGE_KINDS[(i // 10) % len(EDGE_KINDS)]
+    labels = set()
+    e, spec = make_edge(rng, typ, k, 3.0, labels)
+    hist = []
+    for step in range(int(rng.integers(3, 7))):
+        with np.errstate(all="ignore"):
+            e.calc_jacobians()  # a first call that a cache could remember
+        hist.append(mutate_operand(rng, e))
+        case = {"edge": spec, "history": list(hist), "poses": [M.fl(v.pose) for v in e.vertices], "estimate": M.fl(e.estimate),
+                "offset": M.fl(e.offset) if getattr(e, "offset", None) is not None else None}
+        O.check_edge_jacobians(ctx, e, "history", fd=False, case=case)
+        ctx.count("history_steps")
+        ctx.count("history:" + hist[-1])
+    ctx.nontrivial(gen.fingerprint({"spec": spec, "hist": hist}))
+
+
 def run_case(ctx, i, rng):
     if i % 10 == 9:
         insitu_case(ctx, i, rng)
+    elif i % 10 == 8:
+        history_case(ctx, i, rng)
     else:
         direct_case(ctx, i, rng)
+
+
+def extra_stage(tier, seed, tmp):
+    """thorough tier: the repository's own test-suite as a workload under this property's monitors."""
+    if tier != "thorough":
+        return None
+    from ..runner import suite_under_monitors
+
+    return suite_under_monitors("C01", seed, tmp)
